@@ -11,7 +11,7 @@ THEOREMS = {
     "C11": ("TrVerif.Props.C11", ["Tr.C11_connSet", "Tr.C11_restrict", "Tr.C11_answers", "Tr.C11_route"]),
     "C13": ("TrVerif.Props.C13", ["Tr.C13_history_independent", "Tr.C13_cache_kind_irrelevant", "Tr.C13_structure"]),
     "C14": ("TrVerif.Props.C14", ["Tr.C14_interleavings", "Tr.C14_progress", "Tr.C14_structure"]),
-    "C18": ("TrVerif.Props.C18", ["Tr.C18_index_safe", "Tr.C18_forward_guard", "Tr.C18_codes_documented", "Tr.C18_defaults", "Tr.C18_update_names"]),
+    "C18": ("TrVerif.Props.C18", ["Tr.C18_index_safe", "Tr.C18_forward_guard", "Tr.C18_codes_documented", "Tr.C18_codes_specific", "Tr.C18_defaults", "Tr.C18_update_names"]),
     "C19": ("TrVerif.Props.C19", ["Tr.C19_summary", "Tr.C19_handlers_mirror"]),
 }
 
@@ -38,13 +38,26 @@ for _pid in ("C01", "C02", "C03", "C04", "C05", "C06", "C07", "C08", "C09", "C10
          "inputs (full-answer / projected equality), plus direct evaluation of the property statement on every implementation answer.",
          "Lean 4 model + differential correspondence + executable specification oracles")
 
+_reg("C16", "PROVISIONAL: generated datasets are written as Cap'n Proto cache directories with the repository's own schemas, loaded by the real "
+     "server binary (ASan) behind a scripted walking-router stub, and every HTTP answer is compared with the in-memory calculation on the "
+     "same dataset (direct violation when they differ) and with the Lean model.",
+     "differential: real binary on generated cache files vs in-memory calculation vs Lean model")
+_reg("C18", "PARTIAL proof: index safety of both hour look-ups for every time value and connection list, documented error codes and defaults "
+     "(tables regenerated from the source) are Lean theorems; the transport-level clauses (exactly one response, Content-Length, JSON body, "
+     "classification of generated malformed requests, no crash/hang) are checked over raw sockets against the real ASan binary.",
+     "Lean 4 theorems (index safety, tables) + raw-socket request enumeration against the real binary")
+
 NOT_APPLICABLE = [
     {"property_id": p, "reason": "check under construction in this session (HTTP-level / fault / concurrency harness not built yet); not claimed until it runs"}
-    for p in ("C14", "C15", "C16", "C17", "C18", "C20")
+    for p in ("C14", "C15", "C17", "C20")
 ]
 
 
 def run(pid, tier, seed, replay=None):
+    if pid in ("C16", "C18"):
+        from . import http_checks
+        mod, ths = THEOREMS.get(pid, (None, []))
+        return getattr(http_checks, "run_" + pid.lower())(tier, seed, replay, theorems=ths, module=mod)
     if pid in inproc.PROPS:
         mod, ths = THEOREMS.get(pid, (None, []))
         return inproc.run(pid, tier, seed, replay, theorems=ths, module=mod)
